@@ -1,0 +1,18 @@
+//go:build verif
+
+package unanimity
+
+// Contracts for the deductive checker in /verif (comment-only; compiled only under the verif tag).
+
+//@ func NewUnanimityAccessStructure
+//@   property C02
+//@   uses sets
+//@   ensures err == nil <==> shareholders != nil && scard(sset(shareholders)) >= 2 && !sin(sset(shareholders), box(0))
+//@   ensures err == nil ==> result != nil && result.ps == shareholders
+
+// Exactly the full shareholder set is qualified (as a set: order and repetition of ids do not matter).
+//@ func (*Unanimity).IsQualified
+//@   property C02
+//@   uses sets
+//@   ensures u == nil || u.ps == nil ==> !result
+//@   ensures u != nil && u.ps != nil ==> result == forall y V :: (exists j int :: 0 <= j && j < len(ids) && box(ids[j]) == y) == sin(sset(u.ps), y)
